@@ -46,6 +46,8 @@ type tarCase struct {
 	BuildRepos string `json:"build_repos,omitempty"`
 	// which truncations the case contains (tags only): pkg:<how> on a package-provided file, plain:<how> on another
 	Trunc []string `json:"trunc,omitempty"`
+	// fs cases: additionally run the layer writer under a context that becomes done while it works (suite_tar_cancel.go)
+	Cancel *tarCancel `json:"cancel,omitempty"`
 }
 
 type tarSuite struct{}
@@ -380,7 +382,11 @@ func runTarFsCase(c tarCase) []Step {
 	}
 	path, layer, err := build.VerifLayerFromFS(ctx, w.base, filepath.Join(dir, "layer.tar.gz"))
 	if err != nil {
-		return []Step{{Line: line("ERR"), Go: "ERR", Desc: desc + " => " + err.Error(), Mode: "verdict", Tags: []string{"backend:" + c.Backend, "writeTar:error"}}}
+		steps := []Step{{Line: line("ERR"), Go: "ERR", Desc: desc + " => " + err.Error(), Mode: "verdict", Tags: []string{"backend:" + c.Backend, "writeTar:error"}}}
+		if c.Cancel != nil {
+			steps = append(steps, runTarCancel(c.Backend, w.base, c.Ops, toks, c.Cancel, desc))
+		}
+		return steps
 	}
 	file, err := os.ReadFile(path)
 	if err != nil {
@@ -408,6 +414,9 @@ func runTarFsCase(c tarCase) []Step {
 	steps = append(steps, Step{Line: "tar.digest", Go: dv, Desc: "digest/diffid/size of " + desc, Mode: "oracle-go", GoSpec: dv, NoImpl: true,
 		Tags: []string{"digest:" + strings.SplitN(dv, ":", 2)[0]}, Trivial: true})
 	steps = append(steps, tarReadbackStep(w.base, entries, desc, tarTruncTags(c.Trunc)))
+	if c.Cancel != nil {
+		steps = append(steps, runTarCancel(c.Backend, w.base, c.Ops, toks, c.Cancel, desc))
+	}
 	return steps
 }
 
@@ -952,7 +961,11 @@ func (tarSuite) Gen(r *Rng, i int, tier string) any {
 	if i%20 == 4 {
 		return genTarGlueMultiCase(r)
 	}
-	return genTarFsCase(r, i%40 == 7)
+	c := genTarFsCase(r, i%40 == 7)
+	if i%40 != 7 && r.Chance(40) {
+		c.Cancel = genTarCancel(r, len(c.Ops))
+	}
+	return c
 }
 
 // `harness tar-corpus <dir>`: (re)writes the hand-made corpus cases of this suite (witnesses of the findings and
